@@ -26,6 +26,8 @@ def main():
     timer.daemon = True
     timer.start()
     try:
+        import core
+        core.protect_stdout()
         from core import InfraError, VERIF
         from engine import Check
         import suites
